@@ -88,6 +88,9 @@ pub mod fdl;
 pub mod phy;
 pub mod time;
 
+#[cfg(feature = "verif-hooks")]
+pub mod verif_hooks;
+
 #[cfg(all(test, feature = "std"))]
 pub mod test_utils;
 
